@@ -16,6 +16,9 @@ CONSTANTS
   RegAfters = {"keep"}
   RegEmpties = {FALSE}
   AddAliases = FALSE
+  STypes = {"ptr"}
+  TypesFullUpTo = 100
+  DedupByValue = FALSE
 INVARIANTS TAtMostOnce TReverseOrder TAtReturn TRegistered TNothingWhileWaiting
 POSTCONDITION Post
 CHECK_DEADLOCK FALSE
